@@ -74,6 +74,11 @@ func (a *AES128CBC) DecodeFromBytes(data []byte, _ gopacket.DecodeFeedback) erro
 		return fmt.Errorf("invalid number of pad bytes: %v", padBytes)
 	}
 	padStart := len(data) - int(padBytes) - 1
+	if padStart < a.cipher.BlockSize() {
+		// the pad would begin inside the IV
+		return fmt.Errorf("invalid number of pad bytes for a %v byte payload: %v",
+			len(data)-a.cipher.BlockSize(), padBytes)
+	}
 	// table 13-20 of the spec says we should check the pad
 	v := uint8(1)
 	for i := padStart; i < padStart+int(padBytes); i++ {
